@@ -46,7 +46,7 @@ def configs(tier, seed):
             out.append(dict(part='extprec', signed=s, n_word=n, n_frac=rng.choice((0, 1, n // 2))))
     # strings in raw mode and rendering: C11's harness on wide words
     for n in ((64,) if tier == 'quick' else (64, 65, 66, 72, 96, 127, 128, 129, 200, 256)):
-        for s in ((True, False) if tier == 'thorough' else (rng.choice((True, False)),)):
+        for s in (True, False):
             out.append(dict(part='strings', c11=dict(signed=s, n_word=n, n_frac=rng.choice(_nfs(n)), shape=[], mode='raw')))
     # bitwise operators: C13's harness on wide words
     for n in ((64, 65) if tier == 'quick' else (64, 65, 66, 72, 96, 127, 128, 129, 200, 256)):
